@@ -296,3 +296,22 @@ func (p *PX) callArgs(c *ssa.Call, fr *pxFrame, st *pxState) ([]ssa.Value, []*Te
 	}
 	return c.Call.Args, ts
 }
+
+func init() {
+	// -dump disp:<function>: the 256-tag dispatch map of a function
+	extraDumpsPrefix["disp:"] = func(w *World, arg string) {
+		fn := w.fn(arg)
+		if fn == nil {
+			fmt.Println("no such function")
+			return
+		}
+		d := w.dispatchOf(fn, nil)
+		if d == nil {
+			fmt.Println("no dispatch")
+			return
+		}
+		for _, l := range armSummary(d) {
+			fmt.Println(l)
+		}
+	}
+}
